@@ -160,13 +160,21 @@ func ruleReservedPrefix(c *chk.Ctx) {
 	c.Check(prefix == "rpc.", "TABLE.prefix", af, "reserved prefix", acall.Pos(), "the reserved prefix is \"rpc.\"", "the reserved prefix is \""+prefix+"\", not \"rpc.\"")
 	// on the reserved edge: only constant names with that prefix map to a handler
 	n := 0
-	for _, r := range ir.Returns(af) {
+	for _, r := range effectiveReturns(c, af, 0) {
 		if r.Block() == b {
 			continue
 		}
 		v := ir.ReturnResult(r, 0)
 		var ks []string
-		for _, cd := range ir.CondsAt(r.Block()) {
+		conds := ir.CondsAt(r.Block())
+		if r.Parent() != af {
+			// the handler chosen by a private helper the assign function ends in
+			conds = c.P.CondsWithin(r, af)
+		}
+		if alts := expandPredicateHelpers(c, conds, 0); len(alts) == 1 {
+			conds = alts[0]
+		}
+		for _, cd := range conds {
 			ks = append(ks, describeGateCond(c, cd))
 		}
 		sort.Strings(ks)
